@@ -93,6 +93,13 @@ Theorem C15_nested_dispatch_does_not_disturb_the_outer_chain :
     get_w s inst = Some w -> exists suf, chain w k = calls (snd (dispatchF beh (S f) s inst k)) ++ suf.
 Proof. exact dispatchF_calls_prefix. Qed.
 
+(** the fuel is not a restriction: once no nesting (at any depth) ran out of it, any larger fuel gives the same
+    result -- the harness compares only such results *)
+Theorem C15_fuel_irrelevant :
+  forall beh f n s inst k, complete (snd (dispatchF beh f s inst k)) = true ->
+    dispatchF beh (n + f) s inst k = dispatchF beh f s inst k.
+Proof. exact fuel_irrelevant_plus. Qed.
+
 (** Non-vacuity: handler 1 unregisters itself while running; handler 0 (older) is not skipped. *)
 Example C15_example :
   let beh := fun h n => if Nat.eqb h 1 then (RContinue, [ReUnreg 0 KTimer 1]) else (RContinue, []) in
@@ -112,6 +119,7 @@ Proof. vm_compute. reflexivity. Qed.
 
 Print Assumptions C15_register.
 Print Assumptions C15_dispatcher_unfold.
+Print Assumptions C15_fuel_irrelevant.
 Print Assumptions C15_nested_dispatch_is_a_dispatch.
 Print Assumptions C15_nested_dispatch_does_not_disturb_the_outer_chain.
 Print Assumptions C15_unregister.
